@@ -144,6 +144,7 @@ func init() {
 		c.OnlyRules = map[string]bool{"C11.M": true}
 		g(c, "c11ReadIndex", c11ReadIndex)
 		c.OnlyRules = nil
+		g(c, "cSnapClear", cSnapClear) // a pending snapshot dropped unwritten leaves commit beyond the log: the next Ready asserts
 	}})
 	register(&PropertyRule{ID: "C15", Explain: "C15 (convergence): existence of each recovery edge only; see DESIGN.md §5 C15", Run: func(c *Check) {
 		g(c, "c15Recovery", c15Recovery)
